@@ -1,6 +1,7 @@
 package verifsim
 
 import (
+	"time"
 	"bytes"
 	"context"
 	"errors"
@@ -37,6 +38,7 @@ type Bias struct {
 	EarlyRet   bool // handler may return before consuming everything (bounded, see genStream)
 	OKCoded    bool // some handler errors carry a gRPC status of their own whose code is OK
 	AllTopos   bool
+	Bounded    bool // class B programs only (the transport is a rendezvous one whatever the links say)
 }
 
 var mdKeyAlphabet = "abcdefghijklmnopqrstuvwxyz0123456789-_."
@@ -326,6 +328,11 @@ func isEarlyRet(c *CallSpec) (bool, int) {
 func addMetadataOps(g *rand.Rand, c *CallSpec) {
 	c.ReqMD = drawMD(g, 16)
 	c.AliasMD = g.IntN(4) == 0
+	if g.IntN(4) == 0 {
+		// a deadline that never fires: the server builds the handler's context along
+		// another path when the request carries a timeout
+		c.Timeout = time.Duration(10+g.IntN(50)) * time.Minute
+	}
 	hs, ts := map[string]string{}, map[string]string{}
 	drawH := func(n int) map[string][]string { return drawMDSpell(g, n, hs) }
 	drawT := func(n int) map[string][]string { return drawMDSpell(g, n, ts) }
@@ -341,10 +348,31 @@ func addMetadataOps(g *rand.Rand, c *CallSpec) {
 		c.HProg = append(pre, c.HProg...)
 		return
 	}
-	for i := g.IntN(3); i > 0; i-- {
+	late := false
+	if g.IntN(5) == 0 {
+		// no response metadata before the first message, and an attempt to set or send
+		// some right after it (the header phase ended with that message, metadata or not)
+		for i, op := range c.HProg {
+			if op.K == 's' && op.N >= 1 {
+				lateOp := Op{K: []OpK{'L', 'M'}[g.IntN(2)], MD: drawMDSpell(g, 3, map[string]string{})}
+				rest := append([]Op{}, c.HProg[i+1:]...)
+				head := append(append([]Op{}, c.HProg[:i]...), Op{K: 's', N: 1}, lateOp)
+				if op.N > 1 {
+					head = append(head, Op{K: 's', N: op.N - 1})
+				}
+				c.HProg = append(head, rest...)
+				late = true
+				break
+			}
+		}
+	}
+	for i := g.IntN(3); i > 0 && !late; i-- {
 		pre = append(pre, Op{K: 'H', MD: drawH(6)})
 	}
 	mode := g.IntN(3) // 0: explicit SendHeader, 1: with first message / trailer, 2: SendHeader later
+	if late {
+		mode = 1
+	}
 	if mode == 0 {
 		pre = append(pre, Op{K: 'S', MD: drawH(6)})
 	}
@@ -395,7 +423,7 @@ func genMix(b Bias) func(g *rand.Rand, tier string) any {
 		// class U: every link unbounded, any program shape; class B: bounded or
 		// rendezvous links, programs restricted to shapes whose receivers never
 		// wait for their own sends (DESIGN section 6.1: flow control is not a defect)
-		classU := g.IntN(2) == 0
+		classU := g.IntN(2) == 0 && !b.Bounded
 		if classU {
 			for i := range p.Topo.Links {
 				p.Topo.Links[i].Cap = -1
@@ -513,6 +541,7 @@ func execMix(e *Env, pp any) {
 		checkStreams(run)
 	} else {
 		checkUnaryPairing(e, sim, "C01")
+		checkUnaryOwnership(e, sim)
 		checkStreams(run)
 		checkStatus(run)
 	}
@@ -534,6 +563,28 @@ func execMix(e *Env, pp any) {
 	checkConnStats(run)
 }
 
+// checkUnaryOwnership (C05): a unary call's handler saw that call's request and its
+// caller that call's reply - a well-formed payload of another call on either side is
+// an envelope that reached somebody who does not own it.
+func checkUnaryOwnership(e *Env, sim *Sim) {
+	for _, id := range sim.Order {
+		r := sim.Calls[id]
+		if r.Spec.Kind != KUnary || !r.Started || !r.Returned {
+			continue
+		}
+		if r.HInvoked >= 1 && !bytes.Equal(r.HReq, r.Spec.Req) {
+			if c, d, _, ok := payloadTag(r.HReq); ok && c != id {
+				e.Violate("C05", "cross-delivery", "unary.request", "call %d: its handler was given the payload of call %d (dir=%c)", id, c, d)
+			}
+		}
+		if r.InvokeErr == nil && r.Spec.HStatus == nil && r.Spec.BadReply == 0 && !bytes.Equal(r.InvokeResp, r.Spec.Resp) {
+			if c, d, _, ok := payloadTag(r.InvokeResp); ok && c != id {
+				e.Violate("C05", "cross-delivery", "unary.reply", "call %d: Invoke returned the payload of call %d (dir=%c)", id, c, d)
+			}
+		}
+	}
+}
+
 func init() {
 	reg := func(name string, props []string, b Bias) {
 		Register(&Family{Name: name, Props: props, New: func() any { return &MixParams{} }, Gen: genMix(b), Exec: execMix, ShrinkKeys: []string{"callers"}})
@@ -551,6 +602,18 @@ func init() {
 				p.Opts.CliUnary, p.Opts.SrvUnary, p.Opts.SrvStream = 1+g.IntN(3), 1+g.IntN(6), 1+g.IntN(6)
 				p.Opts.SrvChain = true
 			}
+			return p
+		}})
+	// mix.ws: unary calls of several concurrent callers on connections that are the
+	// library's own WebSocket transport on both sides (its Read and Write adapters are
+	// shared by every call of the connection). Unary only: over a WebSocket the end of any
+	// stream that still has a write in hand closes the connection (known finding F51,
+	// family c02.ws), which in lock-step schedules includes the ordinary half-close.
+	Register(&Family{Name: "mix.ws", Props: []string{"C01", "C05"}, New: func() any { return &MixParams{} }, Exec: execMix, ShrinkKeys: []string{"callers"},
+		Gen: func(g *rand.Rand, tier string) any {
+			p := genMix(Bias{Streams: 0, Errors: 10, Metadata: 5, MaxCalls: 16, Bounded: true})(g, tier).(*MixParams)
+			p.Topo.Kind = TopoWS
+			p.Topo.Clients = 1 + g.IntN(2)
 			return p
 		}})
 	reg("mix.all", []string{"C01", "C02", "C03", "C04", "C05", "C06", "C20"}, Bias{Streams: 60, Errors: 25, Metadata: 30, MaxMsgs: 8, MaxCalls: 12, Intercept: true, AllTopos: true, LateRecv: true})
